@@ -4,6 +4,7 @@ import (
 	"encoding/hex"
 
 	"github.com/decred/dcrd/dcrec/secp256k1/v4"
+	"github.com/elnosh/gonuts/cashu"
 	"github.com/elnosh/gonuts/cashu/nuts/nut04"
 	"github.com/elnosh/gonuts/cashu/nuts/nut05"
 	"github.com/elnosh/gonuts/mint/storage"
@@ -193,3 +194,67 @@ func vhMeltQuoteStep(mode int) {
 func VHarnessMeltQuoteC02() { vhMeltQuoteStep(vhC02) }
 func VHarnessMeltQuoteC16() { vhMeltQuoteStep(vhC16) }
 func VHarnessMeltQuoteC06() { vhMeltQuoteStep(vhC06) }
+
+// C16: the totals the mint reports and the info endpoint, over a history: an arbitrary ledger, then one more spend
+// (a proof consumed) or one more issuance, with the info endpoint asked before and after.
+func VHarnessMintInfoC16() {
+	env := vhNewEnv(2)
+	m := env.m
+	raw := env.db.VhRaw()
+	v.Assume(env.db.SaveSeed([]byte("0123456789abcdef0123456789abcdef")) == nil)
+	m.limits.MaxBalance = v.U64("limit.balance")
+	m.limits.MintingSettings.MaxAmount = v.U64("limit.mint.max")
+	v.SqlSymRows(raw, "blind_signatures", 1)
+	v.SqlSymRows(raw, "proofs", 1)
+	issued, redeemed := env.balanceZ(1, 1)
+	v.Assume(v.ZLe(redeemed, issued))
+	v.Assume(v.ZLt(issued, v.ZU(1<<62)))
+	maxB := m.limits.MaxBalance
+	check := func(when string, issued, redeemed v.Z) {
+		balance := v.ZSub(issued, redeemed)
+		info, err := m.RetrieveMintInfo()
+		v.Assert(err == nil, "C16 the info endpoint answers "+when)
+		if err == nil {
+			want := v.And(maxB > 0, v.ZLe(v.ZU(maxB), balance))
+			v.Assert(info.Nuts.Nut04.Disabled == want, "C16 info shows minting disabled exactly when the balance has reached the configured maximum "+when)
+		}
+		bal, berr := m.TotalBalance()
+		v.Assert(berr == nil, "C16 the balance is reported "+when)
+		if berr == nil {
+			v.Assert(v.ZEq(v.ZU(bal), balance), "C16 reported balance = issued - redeemed (exact) "+when)
+		}
+		is, ierr := m.IssuedEcash()
+		rs, rerr := m.RedeemedEcash()
+		v.Assert(v.And(ierr == nil, rerr == nil), "C16 the per-keyset totals are reported "+when)
+		if ierr == nil && rerr == nil {
+			si, sr := v.ZU(0), v.ZU(0)
+			for _, a := range is {
+				si = v.ZAdd(si, v.ZU(a))
+			}
+			for _, a := range rs {
+				sr = v.ZAdd(sr, v.ZU(a))
+			}
+			v.Assert(v.And(v.ZEq(si, issued), v.ZEq(sr, redeemed)), "C16 the per-keyset issued / redeemed totals add up to everything signed / consumed "+when)
+		}
+	}
+	check("before", issued, redeemed)
+	v.Reach("info-before")
+	// the history goes on: one more proof consumed, or one more signature handed out
+	amt := v.U64("step.amount")
+	v.Assume(amt < 1<<61)
+	if v.Int("step.kind", 0, 1) == 0 {
+		v.Assume(v.ZLe(v.ZAdd(redeemed, v.ZU(amt)), issued))
+		p := cashu.Proof{Amount: amt, Id: env.ids[v.Int("step.ks", 0, 1)], Secret: v.Str("step.secret"), C: v.Str("step.C")}
+		if env.db.SaveProofs(cashu.Proofs{p}) == nil {
+			redeemed = v.ZAdd(redeemed, v.ZU(amt))
+			v.Reach("spent-more")
+		}
+	} else {
+		sig := cashu.BlindedSignature{Amount: amt, Id: env.ids[v.Int("step.ks", 0, 1)], C_: v.Str("step.C_"), DLEQ: &cashu.DLEQProof{E: "e1", S: "s1"}}
+		if env.db.SaveBlindSignatures([]string{v.Str("step.B_")}, cashu.BlindedSignatures{sig}) == nil {
+			issued = v.ZAdd(issued, v.ZU(amt))
+			v.Reach("issued-more")
+		}
+	}
+	check("after", issued, redeemed)
+}
